@@ -702,7 +702,9 @@ class Unary(Expression):
 
     @contextmanager
     def calculate(self, dst, long, force=False):
-        with self.arg.calculate(dst, long, force) as (dst, long):
+        with self.arg.calculate(dst, long, force) as (dst, arg_long):
+            if long is None:  # otherwise compute in the width asked for
+                long = arg_long
             self.calculate_unary(dst, long)
             yield dst, long
 
@@ -725,8 +727,9 @@ class Absolute(Unary):
         self.signed = False
 
     def calculate_unary(self, dst, long):
-        with self.ebpf.sr[dst] < 0:
-            self.ebpf.sr[dst] = -self.ebpf.sr[dst]
+        regs = self.ebpf.sr if long else self.ebpf.sw
+        with regs[dst] < 0:
+            regs[dst] = -regs[dst]
 
 
 class SwitchEndian(Unary):
